@@ -274,7 +274,8 @@ class E1Check(runner.Check):
                     case = {"mode": "l3", "table": self.l3_table, "gtype": values.type_to_json(T), "tvs": values.tv_to_json(tvs),
                             "layout": layouts.to_json(d), "wrap": names, "label": label}
                     sig = {"op": "l3:" + opn, "wrap": names[0].split("@")[0].split("-")[0], "l3": True,
-                           "axis_none": "axis=None" in label, "no_leaves": len(l3.leaves(values.strip(tvs))) == 0}
+                           "axis_none": "axis=None" in label, "no_leaves": len(l3.leaves(values.strip(tvs))) == 0,
+                           "strings": refops._has_kind(T, ("str", "bytes"))}
                     sig.update(self.l3_signature(T, tvs, label))
                     if ekind == "value" and got[0] == "value":
                         if self.l3_matches(evalue, got[1], label):
